@@ -8,6 +8,7 @@ import (
 	"encoding/base64"
 	"encoding/json"
 	"fmt"
+	"io"
 	"net/http"
 	"net/http/httptest"
 	"net/url"
@@ -138,6 +139,61 @@ func (l *ReqLog) Last() *ReqRecord {
 
 var registerOnce sync.Once
 
+// FaultySigner is the log's signer as the front end sees it: the real key behind a device that can fail
+// transiently (an HSM / KMS).  The instance obtains it through trillian's crypto/keys handler registry, the
+// way a PKCS#11-held key reaches a production instance; no hook in the repository is involved.
+type FaultySigner struct {
+	crypto.Signer
+	mu       sync.Mutex
+	failNext int // the next n calls of Sign fail
+	Calls    int // calls of Sign
+	Failed   int // of which failed on demand
+}
+
+// ErrSigner is what a failing device answers.
+var ErrSigner = fmt.Errorf("verif: signing device unavailable (injected fault)")
+
+// FailNext makes the next n calls of Sign fail (0 disarms).
+func (f *FaultySigner) FailNext(n int) { f.mu.Lock(); f.failNext = n; f.mu.Unlock() }
+
+// Counts returns (calls of Sign, of which failed on demand).
+func (f *FaultySigner) Counts() (int, int) { f.mu.Lock(); defer f.mu.Unlock(); return f.Calls, f.Failed }
+
+// Sign implements crypto.Signer.
+func (f *FaultySigner) Sign(rand io.Reader, digest []byte, opts crypto.SignerOpts) ([]byte, error) {
+	f.mu.Lock()
+	f.Calls++
+	if f.failNext > 0 {
+		f.failNext--
+		f.Failed++
+		f.mu.Unlock()
+		return nil, ErrSigner
+	}
+	f.mu.Unlock()
+	return f.Signer.Sign(rand, digest, opts)
+}
+
+var (
+	signersMu sync.Mutex
+	signers   = map[string]*FaultySigner{} // token label -> signer
+	signerSeq int
+)
+
+// signerFromProto is the crypto/keys handler for keyspb.PKCS11Config messages of this harness.
+func signerFromProto(_ context.Context, m proto.Message) (crypto.Signer, error) {
+	cfg, ok := m.(*keyspb.PKCS11Config)
+	if !ok {
+		return nil, fmt.Errorf("verif: not a PKCS11Config: %T", m)
+	}
+	signersMu.Lock()
+	defer signersMu.Unlock()
+	s, ok := signers[cfg.TokenLabel]
+	if !ok {
+		return nil, fmt.Errorf("verif: unknown token %q", cfg.TokenLabel)
+	}
+	return s, nil
+}
+
 // Opts configures an Env.
 type Opts struct {
 	Dir         string // scratch directory (roots file)
@@ -165,6 +221,7 @@ type Env struct {
 	ReqLog  *ReqLog
 	Inst    *ctfe.Instance
 	Prefix  string
+	Signer  *FaultySigner // the signer the instance holds (the real key behind a device that fails on demand)
 }
 
 // BaseTime is where fake clocks start: in the future of the wall clock, so that the per-request
@@ -177,6 +234,7 @@ func BaseTime() time.Time {
 func New(o Opts) (*Env, error) {
 	registerOnce.Do(func() {
 		keys.RegisterHandler(&keyspb.PrivateKey{}, der.FromProto)
+		keys.RegisterHandler(&keyspb.PKCS11Config{}, signerFromProto)
 	})
 	if o.LogKey == nil {
 		o.LogKey = pki.NewKey(o.LogKeyType)
@@ -194,15 +252,18 @@ func New(o Opts) (*Env, error) {
 	if o.Backend == nil {
 		o.Backend = NewBackend(o.LogID, uint64(o.Clock.Now().UnixNano()))
 	}
-	privDER, err := x509.MarshalPKCS8PrivateKey(o.LogKey)
-	if err != nil {
-		return nil, err
-	}
 	pubDER, err := x509.MarshalPKIXPublicKey(o.LogKey.Public())
 	if err != nil {
 		return nil, err
 	}
-	anyKey, err := anypb.New(&keyspb.PrivateKey{Der: privDER})
+	fs := &FaultySigner{Signer: o.LogKey}
+	signersMu.Lock()
+	signerSeq++
+	label := fmt.Sprintf("verif-token-%d", signerSeq)
+	signers[label] = fs
+	signersMu.Unlock()
+	defer func() { signersMu.Lock(); delete(signers, label); signersMu.Unlock() }()
+	anyKey, err := anypb.New(&keyspb.PKCS11Config{TokenLabel: label})
 	if err != nil {
 		return nil, err
 	}
@@ -240,7 +301,7 @@ func New(o Opts) (*Env, error) {
 	if err != nil {
 		return nil, fmt.Errorf("NewInstanceForVerif: %v", err)
 	}
-	return &Env{Opts: o, LogKey: o.LogKey, KeyDER: pubDER, Backend: o.Backend, Clock: o.Clock, ReqLog: rl, Inst: inst, Prefix: "/" + o.Prefix}, nil
+	return &Env{Opts: o, LogKey: o.LogKey, KeyDER: pubDER, Backend: o.Backend, Clock: o.Clock, ReqLog: rl, Inst: inst, Prefix: "/" + o.Prefix, Signer: fs}, nil
 }
 
 // Do sends one request to the instance's handler for the endpoint path (e.g. ct.GetSTHPath).
